@@ -19,11 +19,11 @@ def describe(tier):
                 'case = (scheme, configuration point, profile with 12..24 array-resident blocks); two setups (same key where placement is '
                 'random, fresh key for SSE-1 where it is PRP-derived); a recording list substituted for the index\'s list members yields, per '
                 'keyword, the slots Search reads (DP17: level, bucket and the in-bucket positions that decrypt); oracle: the placement of the '
-                'two setups differs. non-trivial = permutation other than the identity / profile with >= 12 blocks.' % n,
+                'two setups differs; for every 4th profile (thorough: every profile) 10 setups, and no single block (keyword, position in the read sequence) may sit at the same slot in all of them. non-trivial = permutation other than the identity / profile with >= 12 blocks.' % n,
         'bounds': 'part A: all partitions of N<=%d into <=4 parts x all permutations; part B: all partitions in the block window (first 40 per point in quick)' % n,
         'assumptions': ['chance coincidence of two random placements of >= 12 blocks <= 1/12! = 2.1e-9 per case (inside the property\'s own 1e-8)',
                         'DP17 part B uses level ratio 1.0 and singleton-heavy databases so that the bucket choice alone has probability < 1e-8 of repeating'],
-        'must_be_nonzero': ['permutations', 'sorted-tables', 'array-cases'],
+        'must_be_nonzero': ['permutations', 'sorted-tables', 'array-cases', 'deep-array-cases', 'deep-blocks-compared'],
     }
 
 
@@ -246,8 +246,13 @@ def placement(name, scheme, key, edb, db):
     return out
 
 
-def run_b_case(r, seed, name, label, cfg, prof):
+DEEP_SETUPS = 10
+
+
+def run_b_case(r, seed, name, label, cfg, prof, deep=False):
     case = {'part': 'B', 'scheme': name, 'label': label, 'cfg': cfg, 'profile': prof}
+    if deep:
+        case['deep'] = True
     core.note_case(case)
     db, cfg1, g = sse.build_db(seed, name, label, cfg, prof, 6, 'disjoint')
     det.seed_case(seed, PROPERTY, 'B', name, label, tuple(prof))
@@ -278,6 +283,38 @@ def run_b_case(r, seed, name, label, cfg, prof):
         r.outcome('placement-repeats')
     else:
         r.outcome('placement-differs')
+    if deep:
+        # no single block may sit at the same position in every one of DEEP_SETUPS setups: each block is placed uniformly among >= 12
+        # candidate positions, so a block repeats its position 9 more times with probability <= 12^-9 = 1.9e-10 (<= 24 blocks per case:
+        # 4.7e-9, inside the property's 1e-8)
+        ps = [p1, p2]
+        cand = {}
+        try:
+            for _ in range(DEEP_SETUPS - 2):
+                k = scheme.KeyGen() if name == 'CGKO06.SSE1' else key1
+                e = scheme.EDBSetup(k, db)
+                ps.append(placement(name, scheme, k, e, db))
+                r['transitions'] += 2 + 2 * len(db)
+            if name == 'DP17.Pi':
+                cand = {lvl: len(l) for lvl, l in edb1.A_dict.items()}
+        except Exception as e:
+            r.v(PROPERTY, name, 'array-case-raises', '%s:%s' % (core.exc_site(e), type(e).__name__), case, 'repeated setups and searches succeed', core.exc_text(e))
+            return
+        r.count('deep-array-cases')
+        for w in db:
+            seqs = [(q[w][0] if name == 'DP17.Pi' else q[w]) for q in ps]
+            if len({len(x) for x in seqs}) != 1:
+                continue
+            for j in range(len(seqs[0])):
+                vals = [x[j] for x in seqs]
+                if name == 'DP17.Pi' and (len({v[0] for v in vals}) != 1 or cand.get(vals[0][0], 0) < 12):
+                    continue                                       # fewer than 12 buckets on that level: coincidence too likely
+                r.count('deep-blocks-compared')
+                if len(set(vals)) == 1:
+                    r.v(PROPERTY, name, 'block-placement-constant', 'same-key' if name != 'CGKO06.SSE1' else 'fresh-key',
+                        dict(case, keyword_index=list(db).index(w), block=j),
+                        'the block moves between %d setups' % DEEP_SETUPS, 'always at %r' % (vals[0],))
+                    r.outcome('block-placement-constant')
     # placement must not simply follow input order: the concatenated slot sequence is not sorted ascending in both setups
     if name != 'DP17.Pi':
         s1 = [x for w in db for x in p1[w]]
@@ -295,8 +332,8 @@ def run_unit(p, tier, seed):
                 run_a_case(r, seed, name, label, cfg, prof)
         r.sample({'part': 'A', 'scheme': name, 'cfg_point': label, 'profiles': 'all partitions with 2..4 keywords', 'permutations': 'all'})
     else:
-        for prof in b_profiles(name, cfg, tier)[p['lo']:p['hi']]:
-            run_b_case(r, seed, name, label, cfg, prof)
+        for idx, prof in enumerate(b_profiles(name, cfg, tier)[p['lo']:p['hi']]):
+            run_b_case(r, seed, name, label, cfg, prof, deep=(tier != 'quick' or idx % 4 == 0))
             r.sample({'part': 'B', 'scheme': name, 'cfg_point': label, 'profile': prof, 'blocks': blocks_of(name, cfg, prof)}, limit=1)
     det.restore()
     return r
@@ -307,5 +344,5 @@ def replay(case, seed):
     if case['part'] == 'A':
         run_a_case(r, seed, case['scheme'], case['label'], case['cfg'], case['profile'])
     else:
-        run_b_case(r, seed, case['scheme'], case['label'], case['cfg'], case['profile'])
+        run_b_case(r, seed, case['scheme'], case['label'], case['cfg'], case['profile'], deep=bool(case.get('deep')))
     return r['violations']
